@@ -462,8 +462,14 @@ func authorizeAnyChannel(princ Principal, channels base.Set) error {
 				return nil
 			}
 		}
-	} else if princ.Channels().Contains(ch.UserStarChannel) {
-		return nil
+	} else {
+		canSee, err := princ.canSeeChannel(ch.UserStarChannel)
+		if err != nil {
+			return err
+		}
+		if canSee {
+			return nil
+		}
 	}
 	return princ.UnauthError(errUnauthorized)
 }
